@@ -110,7 +110,7 @@ def observe (r : Rep) (ws : List String) : Option String :=
 def rbAllowed (phase : Nat) : List String :=
   -- before the swap the source's location map depends on which RW replica served the controller's
   -- widening reads, so it is not observed
-  if phase = 1 then ["w", "r", "full", "rbreload", "rbend", "punch", "rbabort"]
+  if phase = 1 then ["w", "r", "full", "rbreload", "rbend", "punch", "rbabort", "rbfinish"]
   else if phase = 5 then ["w", "r", "full", "rbend"]   -- after an interrupted rebuild
   else ["w", "r", "full", "holes", "loc", "meta", "imeta", "apply", "lunmap", "lunmapw", "rbpromote", "rbend", "cands", "punch", "cmp", "csnap", "killq", "crevert"]
 
@@ -146,6 +146,16 @@ partial def loop (h : IO.FS.Stream) (out : IO.FS.Stream) (r : Rep) : IO Unit := 
   | ["rbabort"] =>   -- the rebuild is interrupted before the transfer: the newcomer stays WO, never readable
     if r.rb ≠ 1 then do out.putStrLn "inadmissible"; loop h out r else
     do out.putStrLn "aborted newcomer=WO"; loop h out { r with rb := 5 }
+  | ["coal", _] =>   -- the fold is a step of the deletion flow of an attached, open replica; anything else is outside the protocol
+    if !r.isOpen then do out.putStrLn "inadmissible"; loop h out r else
+    match parseOp ws with
+    | some op => let (r', o) := r.step op; out.putStrLn (showOut o); loop h out r'
+    | none => out.putStrLn "bad-op"; loop h out r
+  | ["rbfinish"] =>   -- the rebuild runs to its end undisturbed; the source stays the replica under test
+    if r.rb ≠ 1 then do out.putStrLn "inadmissible"; loop h out r else
+    -- all three replicas are RW again: UpdateCheckpoint records the newest snapshot everywhere (as `rbPromote`)
+    do out.putStrLn "finished newcomer=RW equal"
+       loop h out { r with rb := 5, ckpt := match r.names.getLast? with | some n => "volume-snap-" ++ n ++ ".img" | none => "" }
   | ["crevert", n] =>   -- Controller.Revert: every RW replica reverts through its REST endpoint
     if r.rb ≠ 3 then do out.putStrLn "inadmissible"; loop h out r else
     let (r', o) := r.step (.revert n)
